@@ -237,7 +237,7 @@ theorem parseExample_rel {s : PS} (hf : Flat s.aliases) : RelS ExRel (parseExamp
 
 theorem parseExample_aliases {s s' : PS} {e : Example} (h : parseExample s = .ok (e, s')) :
     s'.aliases = s.aliases := by
-  obtain ⟨_, a⟩ := parseExample_adv h; exact a.aliases
+  obtain ⟨_, a, _⟩ := parseExample_adv h; exact a.aliases
 
 inductive ExsRel : List Example → List Example → Prop
   | nil : ExsRel [] []
